@@ -81,10 +81,22 @@ type c14Server struct {
 	fl     *c14FaultListener // nil: the server listens by itself (Start)
 }
 
+var c14StatsLocked int32 // set when the server's statistics mutex could not be taken for 3 s (somebody left it locked)
+
 func (srv *c14Server) counter() int {
-	srv.s.stats.mutex.Lock()
-	defer srv.s.stats.mutex.Unlock()
-	return srv.s.stats.currentConnections
+	if atomic.LoadInt32(&c14StatsLocked) == 1 {
+		return -777
+	}
+	for dl := time.Now().Add(3 * time.Second); ; time.Sleep(time.Millisecond) {
+		if srv.s.stats.mutex.TryLock() {
+			defer srv.s.stats.mutex.Unlock()
+			return srv.s.stats.currentConnections
+		}
+		if time.Now().After(dl) {
+			atomic.StoreInt32(&c14StatsLocked, 1)
+			return -777
+		}
+	}
 }
 
 func (srv *c14Server) settle() int {
@@ -220,7 +232,9 @@ func c14Run(srv *c14Server, c c14Case) (res c14Result) {
 			ctr = srv.settle() - base
 		}
 		res.Obs = append(res.Obs, c14Obs{i, st.A, st.C, ctr, open, outcome, st.Counter})
-		if ctr != open {
+		if atomic.LoadInt32(&c14StatsLocked) == 1 {
+			res.Bad = append(res.Bad, fmt.Sprintf("step %d (%s %d): the server's connection counter cannot be read any more, its mutex is held for good", i, st.A, st.C))
+		} else if ctr != open {
 			res.Bad = append(res.Bad, fmt.Sprintf("step %d (%s %d): the server reports %d open connections, %d are open", i, st.A, st.C, ctr, open))
 		}
 		if ctr < 0 || ctr+base < 0 {
@@ -422,6 +436,9 @@ func c14Run(srv *c14Server, c c14Case) (res c14Result) {
 		if outcome != "skipped" {
 			check(i, st, outcome)
 		}
+		if atomic.LoadInt32(&c14StatsLocked) == 1 {
+			return // nothing further can be observed on this server
+		}
 	}
 	// epilogue: end whatever is still open, the count must return to the base
 	for _, cn := range conns {
@@ -475,7 +492,7 @@ func TestC14Replay(t *testing.T) {
 		}
 		config.Server.MaxConnections = c.Max
 		results = append(results, c14Run(srv, c))
-		if nbad += len(results[len(results)-1].Bad); nbad > 6 {
+		if nbad += len(results[len(results)-1].Bad); nbad > 6 || atomic.LoadInt32(&c14StatsLocked) == 1 {
 			break // enough to report; every further history would wait for a server that does not recover
 		}
 	}
